@@ -261,7 +261,7 @@ theorem symLen_le (m : Mode) : ∀ l : List UInt8, symLen m l ≤ l.length
     · simp
     · simp; exact symLen_le m bs
 
-theorem symLen_append (m : Mode) : ∀ (a b : List UInt8), symLen m a < a.length →
+theorem symLen_append_lt (m : Mode) : ∀ (a b : List UInt8), symLen m a < a.length →
     symLen m (a ++ b) = symLen m a
   | [], b => by simp
   | x :: xs, b => by
@@ -270,7 +270,7 @@ theorem symLen_append (m : Mode) : ∀ (a b : List UInt8), symLen m a < a.length
     split
     · rfl
     · rename_i hx; simp only [hx] at h
-      rw [symLen_append m xs b (by simpa using h)]
+      rw [symLen_append_lt m xs b (by simpa using h)]
 
 theorem FRel.parseSymbolBytes (scratch : List UInt8) :
     FRel tail (parseSymbolBytes scratch) (parseSymbolBytes scratch) := by
@@ -279,7 +279,7 @@ theorem FRel.parseSymbolBytes (scratch : List UInt8) :
   simp only [P.run_bind, Parse.getRest, Parse.getMode, Parse.consumeN]
   rw [h.rest, h.mode₁, h.mode₂]
   by_cases hlt : symLen .io t.rd.rest < t.rd.rest.length
-  · rw [symLen_append _ _ _ hlt, List.take_append_of_le_length (Nat.le_of_lt hlt)]
+  · rw [symLen_append_lt _ _ _ hlt, List.take_append_of_le_length (Nat.le_of_lt hlt)]
     have hp := FRel.peek.app _ _ (h.consume (symLen .io t.rd.rest) (Nat.le_of_lt hlt))
     revert hp
     generalize Parse.peek { rd := s.rd.consume (symLen Mode.io t.rd.rest), depth := s.depth } = p₁
